@@ -152,9 +152,11 @@ func ruleC17b(c *Ctx) {
 		collect := func(f *ssa.Function) map[string]ssa.Value {
 			m := map[string]ssa.Value{}
 			eachInstr(f, func(i ssa.Instruction) {
-				k, kc, v, ok := headerWrite(i)
-				if ok && kc && (k == "Allow" || k == "Access-Control-Allow-Methods") {
-					m[k] = strip(v)
+				rows, ok := headerWriteRows(i)
+				for _, r := range rows {
+					if ok && (r.Key == "Allow" || r.Key == "Access-Control-Allow-Methods") {
+						m[r.Key] = strip(r.Val)
+					}
 				}
 			})
 			return m
@@ -277,17 +279,18 @@ func summariseAcceptance(p *Program, fn *ssa.Function) *acceptanceSummary {
 		return s
 	}
 	// remainder
-	arg := s.RouteMatch.Call.Args[1]
+	facts := factsAt(fn)
+	arg := refinePhi(s.RouteMatch.Call.Args[1], facts[s.RouteMatch.Block()])
 	if src, ok := lastElementOf(arg); ok && svcMatch != nil && src == ssa.Value(svcMatch) {
 		s.RemainderOK = "last group of the service expression's match on the request path"
 	} else if _, isParam := strip(arg).(*ssa.Parameter); isParam {
 		s.RemainderOK = "parameter (the caller passes the service match's final group)"
 	}
 	// acceptance constants: equalities on the last group of the route match that lead to an append
-	facts := factsAt(fn)
 	acc := map[string]bool{}
+	var curFacts map[condFact]bool
 	isLast := func(v ssa.Value) bool {
-		src, ok := lastElementOf(v)
+		src, ok := lastElementOf(refinePhi(v, curFacts))
 		return ok && src == ssa.Value(s.RouteMatch)
 	}
 	condConst := func(cond ssa.Value, pol bool) (string, bool) {
@@ -338,6 +341,7 @@ func summariseAcceptance(p *Program, fn *ssa.Function) *acceptanceSummary {
 			return
 		}
 		unconditional := true
+		curFacts = facts[b]
 		for f := range facts[b] {
 			if k, ok := condConst(f.Cond, f.Pol); ok {
 				acc[k] = true
